@@ -131,7 +131,9 @@ func (x *Exec) sortOf(t types.Type) string {
 			return "Ref"
 		}
 	case *types.TypeParam:
-		if s, ok := x.tenv[t.Obj().Name()]; ok {
+		// type parameters of an inlined callee are bound to the sorts of its type arguments
+		// (by object identity: names of different functions' parameters may coincide)
+		if s, ok := x.tenvObj[t]; ok {
 			return s
 		}
 		// a type parameter whose core type is a map is modelled as that map
@@ -176,9 +178,13 @@ func (x *Exec) sortOf(t types.Type) string {
 		case "context.Context", "sync.WaitGroup", "sync.Pool", "math/rand.Source":
 			return "Ref"
 		case "reflect.Type":
-			return x.d.Uninterp("RType")
+			return x.reflectSort()
 		case "reflect.StructTag":
-			return x.d.Uninterp("RTag")
+			x.reflectSort()
+			return "RTag"
+		case "reflect.StructField":
+			x.reflectSort()
+			return sfSort
 		case "time.Duration", "reflect.Kind":
 			return "Int"
 		}
